@@ -3,61 +3,78 @@
      PASend m   a writer goroutine performs one write that publishes m (Set / Update / Delete)
      PARecv     the consumer starts one blocking receive
      PACancel   the subscription context is cancelled
+     PATimeout  the harness waits until the oldest blocked writer has given up (Value.Set's 5 s
+                send context expires: Bus.Send returns false through the ctx.Done case)
+   The forwarder of Collection.Pull filters (include, equivalence against the held map): the chain
+   is run with [fstep] of PipeHeld.v, the held map is part of the replayed state.
    After each action the harness waits until no goroutine is runnable and records
      [ writers still blocked; consumer still blocked; consumer saw the close;
        library goroutines of the subscription still alive; number of messages received ]
      ++ the received messages (id, kind, value), oldest first.
    The judge runs the model of Pipe.v the same way: after the action all autonomous steps are
    explored until nothing moves, and the observation must match one of the quiescent states. *)
-From SC Require Import Base.Prelude Bus.Bus Bus.Pipe Bus.Explore.
+From SC Require Import Base.Prelude Resource.Pull Bus.Bus Bus.Pipe Bus.PipeHeld Bus.Explore.
 
-Inductive paction := PASend (m : msg) | PARecv | PACancel.
+Inductive paction := PASend (m : msg) | PARecv | PACancel | PATimeout.
 
 Record pj := mkPJ {
   pp : pipe;
+  hld : hmap;         (* the held map of the Collection.Pull forwarder *)
   wq : list msg;     (* writers blocked in Bus.Send on this listener, oldest first *)
   cpend : bool;      (* the consumer is blocked receiving *)
   cclosed : bool     (* the consumer saw the close *)
 }.
 
-Definition pact (j : pj) (a : paction) : option pj :=
+Definition fs (cfg : fcfg) (j : pj) (a : plabel) : option (pipe * hmap) :=
+  match fstep cfg (mkFP (pp j) (hld j)) a with Some F => Some (fp F, fh F) | None => None end.
+
+Definition pact (cfg : fcfg) (j : pj) (a : paction) : option pj :=
   match a with
-  | PASend m => Some (mkPJ (pp j) (wq j ++ [m]) (cpend j) (cclosed j))
-  | PARecv => if cpend j || cclosed j then None else Some (mkPJ (pp j) (wq j) true (cclosed j))
+  | PASend m => Some (mkPJ (pp j) (hld j) (wq j ++ [m]) (cpend j) (cclosed j))
+  | PARecv => if cpend j || cclosed j then None else Some (mkPJ (pp j) (hld j) (wq j) true (cclosed j))
   | PACancel => match pstep (pp j) PCancel with
-                | Some p => Some (mkPJ p (wq j) (cpend j) (cclosed j))
+                | Some p => Some (mkPJ p (hld j) (wq j) (cpend j) (cclosed j))
                 | None => Some j     (* already cancelled (by PullID itself): nothing changes *)
                 end
+  | PATimeout => match wq j with
+                 | _ :: r => Some (mkPJ (pp j) (hld j) r (cpend j) (cclosed j))
+                 | [] => None
+                 end
   end.
 
 Definition last_index (j : pj) : nat := pred (List.length (p_stages (pp j))).
 
-Definition pmoves (j : pj) : list pj :=
+Definition pmoves (cfg : fcfg) (j : pj) : list pj :=
   (* the oldest blocked writer: its select delivers, or sees the listen context done *)
   (match wq j with
    | m :: r =>
-       (match pstep (pp j) (PSrc m) with Some p => [mkPJ p r (cpend j) (cclosed j)] | None => [] end)
-       ++ (if p_cancel (pp j) then [mkPJ (pp j) r (cpend j) (cclosed j)] else [])
+       (match fs cfg j (PSrc m) with Some (p, h) => [mkPJ p h r (cpend j) (cclosed j)] | None => [] end)
+       ++ (if p_cancel (pp j) then [mkPJ (pp j) (hld j) r (cpend j) (cclosed j)] else [])
    | [] =>
        (* the watcher closes the listener channel once no sender holds the read lock *)
-       match pstep (pp j) PSrcClose with Some p => [mkPJ p [] (cpend j) (cclosed j)] | None => [] end
+       match fs cfg j PSrcClose with Some (p, h) => [mkPJ p h [] (cpend j) (cclosed j)] | None => [] end
    end)
   ++ flat_map (fun i =>
        (if Nat.eqb i (last_index j)
-        then (if cpend j then match pstep (pp j) (PXfer i) with
-                              | Some p => [mkPJ p (wq j) false (cclosed j)] | None => [] end
+        then (if cpend j then match fs cfg j (PXfer i) with
+                              | Some (p, h) => [mkPJ p h (wq j) false (cclosed j)] | None => [] end
               else [])
-        else match pstep (pp j) (PXfer i) with Some p => [mkPJ p (wq j) (cpend j) (cclosed j)] | None => [] end)
-       ++ match pstep (pp j) (PExit i) with Some p => [mkPJ p (wq j) (cpend j) (cclosed j)] | None => [] end)
+        else match fs cfg j (PXfer i) with Some (p, h) => [mkPJ p h (wq j) (cpend j) (cclosed j)] | None => [] end)
+       ++ match fs cfg j (PExit i) with Some (p, h) => [mkPJ p h (wq j) (cpend j) (cclosed j)] | None => [] end)
      (seq 0 (List.length (p_stages (pp j))))
   ++ (if cpend j && input_closed (pp j) (List.length (p_stages (pp j)))
-      then [mkPJ (pp j) (wq j) false true] else []).
+      then [mkPJ (pp j) (hld j) (wq j) false true] else []).
 
 Definition zb (b : bool) : Z := if b then 1 else 0.
 Definition zn (n : nat) : Z := Z.of_nat n.
 Definition enc_msg (m : msg) : list Z := [m_id m; m_kind m; m_val m].
-Definition enc_om (o : option msg) : list Z := match o with Some m => 1 :: enc_msg m | None => [0] end.
+Definition enc_msg_full (m : msg) : list Z := [m_id m; m_kind m; m_val m; m_old m].
+Definition enc_om (o : option msg) : list Z := match o with Some m => 1 :: enc_msg_full m | None => [0] end.
 Definition enc_msgs (l : list msg) : list Z := zn (List.length l) :: flat_map enc_msg l.
+Definition enc_msgs_full (l : list msg) : list Z := zn (List.length l) :: flat_map enc_msg_full l.
+Definition enc_held (h : hmap) : list Z :=
+  zn (List.length h) :: flat_map (fun e => [match fst e with String a _ => zn (Ascii.nat_of_ascii a) | EmptyString => -1 end;
+                                            match snd e with Some v => v | None => -1 end]) h.
 
 Definition alive_goroutines (p : pipe) : nat :=
   ((if p_src_closed p then 0 else 1) + List.length (filter (fun st => negb (is_done st)) (p_stages p)))%nat.
@@ -72,29 +89,35 @@ Definition enc_stage (st : stage) : list Z :=
   match st with
   | StDrop h => 1 :: enc_om h
   | StAfter c => 6 :: enc_om c
-  | StMerge q => 2 :: enc_msgs q
-  | StFwd s c => 3 :: enc_msgs s ++ enc_om c
+  | StMerge q => 2 :: enc_msgs_full q
+  | StFwd s c => 3 :: enc_msgs_full s ++ enc_om c
   | StPullID id c => 4 :: id :: enc_om c
   | StDone => [5]
   end.
 
 Definition enc_pj (j : pj) : list Z :=
   pobserve j ++ [zb (p_cancel (pp j)); zb (p_src_closed (pp j))]
-  ++ flat_map enc_stage (p_stages (pp j)) ++ [9] ++ enc_msgs (wq j).
+  ++ flat_map enc_stage (p_stages (pp j)) ++ [9] ++ enc_msgs_full (wq j) ++ [9] ++ enc_held (hld j).
 
-Definition psettle := settle pmoves enc_pj.
+Definition psettle (cfg : fcfg) := settle (pmoves cfg) enc_pj.
 
-Definition pafter (vo : bool) (worlds : list pj) (a : paction) (o : list Z) : list pj :=
-  let nxt := flat_map (fun j => match pact j a with Some j' => psettle j' | None => [] end) worlds in
+Definition pafter (cfg : fcfg) (vo : bool) (worlds : list pj) (a : paction) (o : list Z) : list pj :=
+  let nxt := flat_map (fun j => match pact cfg j a with Some j' => psettle cfg j' | None => [] end) worlds in
   filter (fun j => zl_eqb (pobserve_m vo j) o) (uniq enc_pj nxt).
 
-Fixpoint preplay (vo : bool) (worlds : list pj) (script : list (paction * list Z)) : list pj :=
+Fixpoint preplay (cfg : fcfg) (vo : bool) (worlds : list pj) (script : list (paction * list Z)) : list pj :=
   match script with
   | [] => worlds
-  | (a, o) :: r => match worlds with [] => [] | _ => preplay vo (pafter vo worlds a o) r end
+  | (a, o) :: r => match worlds with [] => [] | _ => preplay cfg vo (pafter cfg vo worlds a o) r end
   end.
 
+Definition seeds_of (stages : list stage) : list msg :=
+  flat_map (fun st => match st with StFwd s _ => s | _ => [] end) stages.
+
 Record pipecase := mkPC {
+  pc_cfg : fcfg;        (* equivalence of the collection, include filter of the subscription *)
+  pc_pullid : Z;        (* the id of a PullID subscription, 0 otherwise *)
+  pc_item0 : Z;         (* the value of that item when the subscription started, 0 = absent *)
   pc_valonly : bool;
   pc_stages : list stage;
   pc_script : list (paction * list Z);
@@ -103,7 +126,9 @@ Record pipecase := mkPC {
 }.
 
 Definition pipe_agrees (c : pipecase) : bool :=
-  match preplay (pc_valonly c) [mkPJ (init_pipe (pc_stages c)) [] false false] (pc_script c) with
+  match preplay (pc_cfg c) (pc_valonly c)
+                [mkPJ (init_pipe (pc_stages c)) (held_init (pc_cfg c) (seeds_of (pc_stages c))) [] false false]
+                (pc_script c) with
   | [] => false
   | _ => (pc_panics c =? 0) && (pc_leaks c =? 0)
   end.
@@ -126,8 +151,38 @@ Fixpoint script_clean (strict_close : bool) (cancelled : bool) (script : list (p
       && script_clean strict_close cancelled' r
   end.
 
+(* "a single-item subscription also ends when the item is removed": once a Delete of the item of a
+   PullID has been written - the item existed, and it and every value it had since the start passed
+   the include filter, so the subscription could see it - no quiescent observation shows the
+   consumer still blocked in its receive with no writer blocked: the receive has returned a value
+   or the close - until the item is added again (mergeCollectionExcess merges a pending REMOVE
+   with a later ADD into a REPLACE: the item is back before the subscriber could see it gone).
+   (With the close, script_clean demands that every goroutine is gone.)
+   Evaluated on the script alone: the values written, not the model's state. *)
+Fixpoint remove_ends (cfg : fcfg) (pid cur : Z) (allvis removed : bool) (script : list (paction * list Z)) : bool :=
+  match script with
+  | [] => true
+  | (a, o) :: r =>
+      let '(cur', allvis', removed') :=
+        match a with
+        | PASend m =>
+            if m_id m =? pid
+            then (m_val m, allvis && ((m_val m =? 0) || visible cfg pid (m_val m)),
+                  if m_kind m =? 3 then removed || (negb (cur =? 0) && allvis)
+                  else if cur =? 0 then false   (* re-added: without backpressure REMOVE + ADD may merge into a REPLACE *)
+                  else removed)
+            else (cur, allvis, removed)
+        | _ => (cur, allvis, removed)
+        end in
+      (if removed' then negb ((obs_nth o 0 =? 0) && (obs_nth o 1 =? 1)) else true)
+      && remove_ends cfg pid cur' allvis' removed' r
+  end.
+
 Definition pipe_ok (c : pipecase) : bool :=
-  (pc_panics c =? 0) && (pc_leaks c =? 0) && script_clean true false (pc_script c).
+  (pc_panics c =? 0) && (pc_leaks c =? 0) && script_clean true false (pc_script c)
+  && (if pc_pullid c =? 0 then true
+      else remove_ends (pc_cfg c) (pc_pullid c) (pc_item0 c)
+                       ((pc_item0 c =? 0) || visible (pc_cfg c) (pc_pullid c) (pc_item0 c)) false (pc_script c)).
 
 (* Fixed by /repo 728882a (was known finding 1): a PullID subscription whose item is removed
    left the goroutines of the inner Pull running until the context was cancelled and, with
